@@ -215,6 +215,11 @@ def run(facts, rep, ctx):
                 rep.violation(R1, fn, "field:" + f, "%s.%s is read at offset %s width %s %s; reference: offset %d width %d little-endian" % (
                     fn.rsplit("::", 2)[-2], f, got[0] if got else None, got[1] if got else None, got[2] if got else "", o, w), where)
         extra = [f for f in tb["top"] if f not in top and not f.startswith("#unnamed")]
+        # a constructor whose reference is one record per loop trip, rewritten to build a single record (the loop
+        # moved to its caller): the fields it reads at top level *are* the record
+        record_at_top = "#loop" in ref and not top and not tb["loops"] and bool(tb["top"])
+        if record_at_top:
+            extra = []
         for f in extra:
             rep.violation(R1, fn, "extra:" + f, "%s reads an extra unconditional field %s at %s" % (fn, f, tb["top"][f]), where)
         if "#size" in ref and "#loop" not in ref or ("#size" in ref and ref.get("#loop") is not None and top):
@@ -236,8 +241,10 @@ def run(facts, rep, ctx):
         if "#loop" in ref:
             lref = ref["#loop"]
             loops = list(tb["loops"].values())
+            if record_at_top:
+                loops = [{"fields": tb["top"], "size": tb["size"]}]
             if len(loops) != 1:
-                rep.violation(R1, fn, "loop-count", "%s has %d record loops, reference 1" % (fn, len(loops)), where)
+                rep.inconc(R1, "%s has %d record loops, reference 1: which one reads the records is not decided" % (fn, len(loops)))
             else:
                 lp = loops[0]
                 for f, (o, w) in sorted(((k, v) for k, v in lref.items() if not k.startswith("#")), key=lambda kv: kv[1]):
@@ -694,6 +701,46 @@ def self_relative(facts, rep, R1):
             rep.violation(R1, rd.name, "data-entry", "CGFX reader does not go to DATA.entry[1].offset for the texture dictionary", "%s:%s" % (rd.file, rd.line))
 
 
+def unexpanded_calls(facts, b):
+    """Crate-local callees (new helpers, closures) that are still calls in the analysis view of b: their reads,
+    seeks and allocations are not in the event sequence, so a sequence / origin rule has an incomplete picture."""
+    names, _ids = facts.known()
+    out = []
+    for bb, t in b.calls():
+        f = call_target(t)
+        if not f:
+            continue
+        rid = f.get("res_id")
+        cb = facts.bodies.get(rid)
+        if cb is not None and (cb.kind == "Closure" or cb.name not in names):
+            out.append(cb.name)
+        elif f.get("def") in ("std::ops::FnOnce::call_once", "std::ops::FnMut::call_mut", "std::ops::Fn::call") and cb is None:
+            out.append("a closure parameter")
+    return out
+
+
+def origin_closure(b, t, depth=5):
+    """Every term the value t is computed from, following multi-definition locals (`var`) through all their
+    definitions, transitively (bounded): the basis for "does this value depend on field F / local L at all"."""
+    seen = set()
+    out = []
+    todo = [(t, 0)]
+    while todo:
+        z, d = todo.pop()
+        out.append(z)
+        if d >= depth:
+            continue
+        for y in walk(z):
+            if y[0] == "var" and y[1] not in seen and len(seen) < 40:
+                seen.add(y[1])
+                for (bi2, si2, kind, payload) in b.defs().get(y[1], []):
+                    try:
+                        todo.append((b.term_of_rvalue(payload["rv"]) if kind == "assign" else b.term_of_call(payload, bi2), d + 1))
+                    except Exception:
+                        pass
+    return out
+
+
 def bch_sequence(facts, rep, R1, R4):
     b = facts.body("mila::bch::read")
     ct = facts.body("mila::bch::ContentTable::new")
@@ -714,8 +761,12 @@ def bch_sequence(facts, rep, R1, R4):
             got.append(("payload", e["how"]))
     want = [("goto",), ("read", 4), ("goto",), ("read", 4), ("skip", 24), ("read", 4), ("goto",), ("payload", "read_until"), ("goto",), ("read", 2), ("read", 2),
             ("skip", 12), ("read", 4), ("skip", 4), ("read", 4), ("goto",), ("payload", "read_exact")]
+    hidden = unexpanded_calls(facts, b)
     if got == want:
         rep.ok(R1, {"fn": b.name, "per_texture_sequence": "table entry -> object -> commands: h,w @0, data @0x10, format @0x18; name @0x1C"})
+    elif hidden:
+        rep.inconc(R1, "bch::read: part of the per-texture walk is inside %s, which could not be expanded: the sequence is incomplete" % sorted(set(hidden))[0])
+        return
     else:
         rep.violation(R1, b.name, "bch-sequence", "per-texture read sequence is %s, reference %s" % (got, want), where)
     # absolute targets as sets of header fields involved
@@ -725,12 +776,10 @@ def bch_sequence(facts, rep, R1, R4):
     descr = []
     for g, wf in zip(gotos, wantf):
         flds = set(x[2] for x in walk(g["to"]) if x[0] == "field" and isinstance(x[2], str) and len(x) > 4 and x[4] and str(x[4]).startswith("mila::bch::"))
-        # through named locals: commands offset / data offset carry their base inside their definition
-        for x in walk(g["to"]):
-            if x[0] == "var":
-                for (bi, si, kind, payload) in b.defs().get(x[1], []):
-                    if kind == "assign":
-                        flds |= set(y[2] for y in walk(b.term_of_rvalue(payload["rv"])) if y[0] == "field" and isinstance(y[2], str) and len(y) > 4 and y[4] and str(y[4]).startswith("mila::bch::"))
+        # through locals: commands offset / data offset carry their base inside their definition (possibly inside a
+        # record built a few steps earlier)
+        for z in origin_closure(b, g["to"]):
+            flds |= set(y[2] for y in walk(z) if y[0] == "field" and isinstance(y[2], str) and len(y) > 4 and y[4] and str(y[4]).startswith("mila::bch::"))
         descr.append(sorted(flds))
         if wf and not (wf <= flds):
             ok = False
@@ -921,12 +970,29 @@ def assembly(facts, rep, R4):
             # payload buffer read by read_exact in the same iteration
             buf = dec[2][0]
             rx = [t for bb, t in nv.calls() if (callee_names(t)[1] or "").endswith("Read>::read_exact")]
-            if not rx or not (set(x[1] for x in walk(buf) if x[0] == "local") & set(x[1] for x in walk(nv.term_of_operand(rx[0]["args"][1])) if x[0] == "local")):
+
+            def local_closure(t0):
+                """locals the value may come from: through every definition of every local met, transitively"""
+                seen_l, todo_l = set(), [t0]
+                while todo_l and len(seen_l) < 60:
+                    z = todo_l.pop()
+                    for y in walk(z):
+                        if y[0] in ("local", "var") and y[1] not in seen_l:
+                            seen_l.add(y[1])
+                            for (bi2, si2, kind, payload) in nv.defs().get(y[1], []):
+                                try:
+                                    todo_l.append(nv.term_of_rvalue(payload["rv"]) if kind == "assign" else nv.term_of_call(payload, bi2))
+                                except Exception:
+                                    pass
+                return seen_l
+            if not rx or not (local_closure(buf) & set(x[1] for t_ in rx for x in walk(nv.term_of_operand(t_["args"][1])) if x[0] in ("local", "var"))):
                 bad = bad or "the decoder is not applied to the buffer filled by read_exact"
         fnm = f["filename"]
         if not any(x[0] == "local" for x in walk(fnm)):
             bad = bad or "file name is %s" % fmt(fnm)[:40]
-        if bad:
+        if bad and unexpanded_calls(facts, b):
+            rep.inconc(R4, "%s: %s -- but part of the loop is inside a helper that could not be expanded" % (fn, bad))
+        elif bad:
             rep.violation(R4, fn, "assembly", "%s: %s" % (fn, bad), where)
         elif unk:
             rep.inconc(R4, "%s: %s" % (fn, unk))
